@@ -127,6 +127,48 @@ static Verdict run_c05(const Case &c)
         labels.push_back(lab);
       }
   }
+  else if (kind == "relkey")
+  {
+    // forgeries by someone who knows only part of the key: the body is altered and the tag recomputed (RFC 2104,
+    // reference implementation) under a related key - the key cut at its first 0x00 byte, the all-zero key, the
+    // first 8 bytes only, the key with bit 7 of every byte cleared. A MAC that does not use the whole key
+    // accepts one of them.
+    size_t bodylen = base.size() - body;
+    std::vector<std::pair<std::string, bytes>> rel;
+    {
+      bytes k = e.key;
+      size_t z = 0;
+      while (z < 16 && k[z])
+        z++;
+      for (size_t i = z; i < 16; i++)
+        k[i] = 0;
+      rel.push_back({"key cut at its first 0x00 byte", k});
+      rel.push_back({"all-zero key", bytes(16, 0)});
+      k = e.key;
+      for (size_t i = 8; i < 16; i++)
+        k[i] = 0;
+      rel.push_back({"first 8 key bytes only", k});
+      k = e.key;
+      for (auto &x : k)
+        x &= 0x7f;
+      rel.push_back({"key with bit 7 of every byte cleared", k});
+    }
+    for (auto &rk : rel)
+    {
+      if (rk.second == e.key)
+        continue;
+      for (size_t j = 0; j < 12; j++)
+      {
+        bytes f = base;
+        size_t off = body + (j * 7919u) % bodylen;
+        f[off] ^= (uint8_t)(1 + (j * 37u) % 255);
+        bytes tag = ref::hmac(e.hmode, rk.second, f.data() + 48, f.size() - 48);
+        memcpy(f.data() + 10, tag.data(), hl);
+        files.push_back(f);
+        labels.push_back("X:" + std::to_string(off) + ":" + std::to_string(1 + (j * 37u) % 255) + ";S:10:" + hex(bytes(tag.begin(), tag.begin() + hl)));
+      }
+    }
+  }
   else if (kind == "ext")
   {
     // extensions: plain runs of zeros / 0x80 + zeros up to every alignment, and the Merkle-Damgard padding
@@ -318,7 +360,18 @@ static Case gen_c05()
     c.set("kind", "ext");
     return c;
   }
-  if (k < 23 && wapi::has_scheduler())
+  if (k < 27)
+  {
+    c.set("kind", "relkey");
+    if (g::coin(60))
+    {
+      bytes key = c.getb("key");
+      key[(size_t)(g::coin(50) ? 0 : g::range(0, 16))] = 0; // a 0x00 key byte (1 random key in 16 has one)
+      c.setb("key", key);
+    }
+    return c;
+  }
+  if (k < 29 && wapi::has_scheduler())
   {
     c.set("kind", "allocfault");
     c.seti("faultoff", g::range(0, 4096));
@@ -400,7 +453,7 @@ static void fixed_c05(Ctx &ctx)
   // exhaustive single-bit flips, truncations and mode-byte sweeps of one small file per (cmode, hmode)
   for (int cm = 0; cm < 5; cm++)
     for (int hm = 0; hm < 3; hm++)
-      for (const char *kind : {"bitflips", "truncs", "hdr", "tagforge", "ext", "ext/tool"})
+      for (const char *kind : {"bitflips", "truncs", "hdr", "tagforge", "ext", "ext/tool", "relkey"})
       {
         if (!mine(ctx, i++))
           continue;
@@ -411,7 +464,12 @@ static void fixed_c05(Ctx &ctx)
         c.seti("plen", 20 + 16 * cm + hm);
         c.set("pseed", std::to_string(cm * 10 + hm + 500));
         c.seti("pstyle", 0);
-        c.setb("key", expand(cm * 3 + hm + 77, 16, 0));
+        {
+          bytes key = expand(cm * 3 + hm + 77, 16, 0);
+          if (std::string(kind) == "relkey")
+            key[(size_t)((cm + hm) % 2 ? 0 : 5)] = 0;
+          c.setb("key", key);
+        }
         c.setb("seed", bytes{'i', 'v', '5'});
         c.seti("cmode", cm);
         c.seti("hmode", hm);
